@@ -216,6 +216,66 @@ def replay_units(case) -> dict:
             ok = False
         if not ok:
             fails.append(dict(desc, clause="CurriedFunctionGetsTheScale", scale=sc))
+    # a pipeline object is a function: evaluating it again gives the same image, whatever the caller did to the array it was
+    # given the first time, and converters never change the image they are applied to
+    from acryo import pipe as _pp
+
+    blob_f = rng.normal(size=(8, 8, 8)).astype(np.float32)
+    # (from_array at the array's own scale hands the caller's array back and is therefore not in this list)
+    pure = (("from_array_rescaled", _pp.from_array(blob_f, original_scale=0.5)),
+            ("from_gaussian", _pp.from_gaussian(shape=(4.0, 4.0, 4.0), sigma=1.0)), ("user_provider", ramp()),
+            ("composed", _pp.gaussian_filter(sigma=1.0) @ _pp.from_array(blob_f, original_scale=1.0)),
+            ("expression", _pp.from_array(blob_f, original_scale=1.0) > 0.2))
+    for name, prov in pure:
+        first = np.asarray(prov(1.0))
+        keep = np.array(first, copy=True)
+        try:
+            first *= 0                       # the caller post-processes ITS array in place
+        except (ValueError, TypeError):
+            pass
+        again = np.asarray(prov(1.0))
+        if again.shape != keep.shape or not np.array_equal(again, keep):
+            fails.append(dict(desc, clause="ProviderIsAFunction", what=name))
+    src_img = blob_f.copy()
+    for name, conv in (("gaussian_filter", _pp.gaussian_filter(sigma=1.0)), ("lowpass_filter", _pp.lowpass_filter(cutoff=0.3)),
+                       ("dilation", _pp.dilation(1.0)), ("soft_otsu", _pp.soft_otsu(1.0, 1.0)), ("user_converter", addscale(k=2.0))):
+        a1 = np.array(conv(src_img, 1.0), copy=True)
+        a2 = np.asarray(conv(src_img, 1.0))
+        if not np.array_equal(src_img, blob_f):
+            fails.append(dict(desc, clause="ConverterLeavesItsInput", what=name))
+            src_img = blob_f.copy()
+        if a1.shape != a2.shape or not np.array_equal(a1, a2):
+            fails.append(dict(desc, clause="ConverterIsAFunction", what=name))
+    # from_file: the image is resampled by original_scale / scale, where original_scale is the caller's value if given and the
+    # file header's otherwise (mrc: voxel size in Angstrom / 10)
+    import os
+    import tempfile
+
+    import mrcfile
+
+    tmpd = tempfile.mkdtemp(prefix="c19-", dir=str(engine.WORK)) if engine.WORK.exists() else tempfile.mkdtemp(prefix="c19-")
+    try:
+        vol = rng.normal(size=(8, 10, 12)).astype(np.float32)
+        for header_nm in (1.0, 0.5):
+            path = os.path.join(tmpd, f"v{int(header_nm * 10)}.mrc")
+            with mrcfile.new(path, overwrite=True) as m:
+                m.set_data(vol)
+                m.voxel_size = header_nm * 10.0
+            for override, sc in ((None, 1.0), (None, 0.5), (None, 2.0), (0.5, 1.0), (1.0, 0.5), (2.0, 1.0), (0.5, 0.5), (1.0, 1.0)):
+                eff = header_nm if override is None else override
+                got = np.asarray(engine.api(_pp.from_file(path, original_scale=override), sc))
+                want_shape = tuple(int(round(n * eff / sc)) for n in vol.shape)
+                if abs(eff / sc - 1) < 0.01:
+                    ok = got.shape == vol.shape and np.array_equal(got, vol)
+                else:
+                    ok = got.shape == want_shape
+                if not ok:
+                    fails.append(dict(desc, clause="FromFileRescalesByOriginalScale", header_nm=header_nm, original_scale=override, scale=sc,
+                                      observed=list(got.shape), expected=list(want_shape)))
+    finally:
+        import shutil
+
+        shutil.rmtree(tmpd, ignore_errors=True)
     # loader-level normalisation of template / mask inputs
     from acryo import Molecules, SubtomogramLoader
 
